@@ -191,6 +191,9 @@ func C07(tier string) *core.Report {
 		for _, f := range fr.roots(fails) {
 			r.Fail(f)
 		}
+		for _, f := range fr.BlankImportsDropped() {
+			r.Fail(f)
+		}
 		r.Add("unoptimised_stage_unbuildable", tmpBad)
 		if len(fr.HookDiff) > 0 {
 			r.Fail(core.Failure{Key: fr.Spec.Name + ":hook-binding", Kind: "hook-mismatch", Detail: "final output of the hook entry point differs from rewriter.Compile",
